@@ -159,6 +159,8 @@ class Runner:
                     dirs[l] = os.path.join("o", l)
                     os.makedirs(os.path.join(wd, dirs[l]))
                     write(os.path.join(wd, dirs[l], "stale.txt"), "stale")
+                elif dirshape == "rerun":
+                    dirs[l] = os.path.join("o", l)
                 elif dirshape == "shared":
                     # every requested target writes into ONE directory
                     dirs[l] = os.path.join("o", "all")
@@ -167,6 +169,15 @@ class Runner:
             args = [self.cli] + (["compile"] if op == "compile-word" else []) + ["-f", "in.dsl"]
             for l in langs:
                 args += [FLAG[l], dirs[l]]
+            if dirshape == "rerun":
+                # a first run fills the directories; every file then grows a tail, as if an earlier, longer version of
+                # the protocol had been compiled there; the run that is recorded must leave exactly the generators' bytes
+                run(args, cwd=wd, env=env, timeout=240)
+                for l in langs:
+                    for dp, _dn, fs in os.walk(os.path.join(wd, dirs[l])):
+                        for f in fs:
+                            with open(os.path.join(dp, f), "ab") as fh:
+                                fh.write(b"\n// stale tail of an earlier, longer file\n" * 8)
             r = run(args, cwd=wd, env=env, timeout=240)
             e["outcome"], site = outcome_of(r)
             e["exit"] = r.returncode
@@ -254,8 +265,8 @@ def check_c16(tier):
         for name in ("valid1", "valid2", "special"):
             for i, sub in enumerate(subsets if name != "special" else subsets[::5]):
                 for word in (False, True):
-                    shape = ["rel", "abs", "nested", "existing", "subcmd", "shared"][(i + int(word)) % 6] if not thorough else None
-                    for sh in ([shape] if shape else ["rel", "abs", "nested", "existing", "subcmd", "shared"]):
+                    shape = ["rel", "abs", "nested", "existing", "subcmd", "shared", "rerun"][(i + int(word)) % 7] if not thorough else None
+                    for sh in ([shape] if shape else ["rel", "abs", "nested", "existing", "subcmd", "shared", "rerun"]):
                         jobs.append(("compile", (name, sub, word, sh)))
         # 3. format entry points on more texts: comment variants and invalid mutations
         extra = []
@@ -381,6 +392,10 @@ def c11_inputs(thorough, rnd):
         "match-empty-key-list": "root packet P { u8 k, match k as b { [1] : A, }, }\npacket A { u8 x, }\n",
         "inline-empty-like": "root packet P { In { u8 a, }, }\n",
         "inline-named-like-packet": "root packet P { A { u8 a, }, A, }\npacket A { u8 x, }\n",
+        "padleft-only-fixed-key": "options { FixedStringPadFromLeft = true; }\nroot packet P { char[4] k, match k as b { \"AB\" : A, }, }\npacket A { u8 x, }\n",
+        "padleft-false-only": "options { FixedStringPadFromLeft = false; }\nroot packet P { char[4] k, zchar[3] z, match k as b { \"AB\" : A, }, }\npacket A { u8 x, }\n",
+        "inline-match": "root packet P { In { u8 k, match k as b { 1 : A, [2, 3] : A, }, u8 t, }, }\npacket A { u8 x, }\n",
+        "inline-two-matches": "root packet P { In { u8 k, u8 j, match k as b { 1 : A, }, match j as c { 1 : A, }, }, }\npacket A { u8 x, }\n",
         "self-ref": "root packet P { P, }\n",
         "mutual-ref": "root packet P { Q, }\npacket Q { P, }\n",
         "obj-undeclared": "root packet P { Nope n, }\n",
